@@ -20,6 +20,11 @@
 //	reuse      ONE packet object set again and again: every step observed, then an observation, exactly 2^16-1,
 //	           2^16, 2^17, 2^18, 2^20 SetBody calls without any accessor in between, and the observation again;
 //	           error codes set, cleared and read; Reset in between
+//
+// Second round (third red-team wave, body-only changes keyed on what the generators did not vary): legs2.go —
+// held (received packets kept and judged again after later packets were received, plain and bufio readers), cryptors
+// (custom BlockCryptor implementations), shared (one body slice / reference slice for many packets), wordvals
+// (machine-word extremes), typednil. All in the normal tiers.
 package main
 
 import (
